@@ -65,10 +65,10 @@ PROPS = {
         "scale": {"quick": 1, "thorough": 40},
         "floors": {
             "quick": {"bdd_compile_cnf": 1000, "bdd_compile_with_assignments": 3000, "bdd_compile_plan": 800, "sdd_compile_cnf": 700,
-                      "sdd_compile_plan": 600, "bdd_compile_expr": 800, "sdd_compile_expr": 800, "bdd_compile_random_plan": 500, "wide_inputs": 200},
+                      "sdd_compile_plan": 600, "bdd_compile_expr": 800, "sdd_compile_expr": 800, "bdd_compile_random_plan": 500, "wide_inputs": 200, "bdd_compilations_in_a_used_builder": 500, "sdd_compilations_in_a_used_builder": 500},
             "thorough": {"bdd_compile_cnf": 40000},
         },
-        "rule": "One evaluation = one compilation compared with the harness's own evaluation of the input on all 2^n assignments (n <= 10): BDD compile_cnf under a random order permutation and either cache; compile_cnf_with_assignments(c,m) for random partial assignments m of every size (must have the restricted table AND be pointer-equal to condition_model(compile_cnf(c),m)); compile_plan(BottomUpPlan::from_dtree(DTree::from_cnf(c, elim))) for elim in {linear, min-fill, FORCE, random} (right table AND pointer-equal to compile_cnf); SDD compile_cnf / compile_plan under right-linear, left-linear, balanced, random and dtree-derived vtrees; compile_logical_expr for random expression trees over all 7 constructors (depth <= 8) on BDD and SDD; random plans with constants. CNFs include the empty formula, empty clauses, units, repeated and complementary literals, unused indices, up to 200 clauses. Non-trivial = the input's function is neither constant nor a literal; distinct = distinct (function, route/configuration) pairs. Cnf::eval is used only as a cross-check of the oracle (disagreements are counted in evidence). Wide regime: the input's (at most 10) variables are spread over up to 200 rsdd labels, biased to the 64/128 word boundaries, most indices unused; orders, vtrees, partial models and weight tables cover the whole label range, while the oracle keeps working on the dense variables through the harness's own label map.",
+        "rule": "One evaluation = one compilation compared with the harness's own evaluation of the input on all 2^n assignments (n <= 10): BDD compile_cnf under a random order permutation and either cache; compile_cnf_with_assignments(c,m) for random partial assignments m of every size (must have the restricted table AND be pointer-equal to condition_model(compile_cnf(c),m)); compile_plan(BottomUpPlan::from_dtree(DTree::from_cnf(c, elim))) for elim in {linear, min-fill, FORCE, random} (right table AND pointer-equal to compile_cnf); SDD compile_cnf / compile_plan under right-linear, left-linear, balanced, random and dtree-derived vtrees; compile_logical_expr for random expression trees over all 7 constructors (depth <= 8) on BDD and SDD; random plans with constants. CNFs include the empty formula, empty clauses, units, repeated and complementary literals, unused indices, up to 200 clauses. Non-trivial = the input's function is neither constant nor a literal; distinct = distinct (function, route/configuration) pairs. Cnf::eval is used only as a cross-check of the oracle (disagreements are counted in evidence). Wide regime: the input's (at most 10) variables are spread over up to 200 rsdd labels, biased to the 64/128 word boundaries, most indices unused; orders, vtrees, partial models and weight tables cover the whole label range, while the oracle keeps working on the dense variables through the harness's own label map. Reuse regime: one BDD builder and one SDD builder each compile a sequence of 4-6 inputs (CNFs sharing clauses, expressions, random plans, the first CNF again); every result is checked, every earlier result is re-walked after each later compilation, and the first input compiled again must be the same diagram.",
         "assumptions": ASSUME_COMMON + ["S9: FORCE is not applied to CNFs with an empty clause and no dtree is built for the empty formula (outside the listed domains)"],
     },
     "C06": {
@@ -180,10 +180,10 @@ PROPS = {
         "scale": {"quick": 1, "thorough": 40},
         "floors": {
             "quick": {"marginal_map": 1400, "bb_real": 1400, "meu": 1400, "bb_eu": 1400, "queries_with_ignored_variable": 200,
-                      "cases_with_utilities": 500, "cases_with_tiny_utilities": 300, "cases_over_spread_labels": 300, "cases_with_tied_optima": 1000},
+                      "cases_with_utilities": 500, "cases_with_tiny_utilities": 300, "cases_over_spread_labels": 300, "cases_with_tied_optima": 1000, "queries_after_other_queries_in_the_same_builder": 600},
             "thorough": {"marginal_map": 50000},
         },
-        "rule": "One evaluation = one optimisation query on a BDD (random order, <= 7 variables; parity / ite(x,g,!g) / threshold / random functions) compared with exhaustive maximisation by the oracle. marginal_map and bb::<RealSemiring>: query set = empty, all, or a random subset in random order (incl. variables the function ignores); every weight in [0,1] (dyadic, sixteenths), non-query variables normalised, query weights arbitrary with frequent near-ties; expected optimum = max over query assignments a of prod w(a) * U(f|a), U the exact unsmoothed count (S2). meu and bb::<ExpectedUtility>: decision variables carry (1,0),(1,0), chance variables (p,0),(1-p,0), utility-bearing variables (1,u_lo),(1,u_hi) with non-negative dyadic utilities placed below every decision variable in the order; utilities are additionally scaled by 2^-s, s in {0,10,40,70,200} (exact) so that tiny magnitudes occur; expected optimum = max over decision assignments of the utility component of U(f|a). Checks: returned value equals the optimum EXACTLY (S13), the returned partial model assigns every query/decision variable, and the oracle value of that model equals the optimum (ties free). Non-trivial = function neither constant nor literal and a non-empty query; distinct = distinct (function, order, query, weights, query kind). Wide regime: the input's (at most 10) variables are spread over up to 200 rsdd labels, biased to the 64/128 word boundaries, most indices unused; orders, vtrees, partial models and weight tables cover the whole label range, while the oracle keeps working on the dense variables through the harness's own label map.",
+        "rule": "One evaluation = one optimisation query on a BDD (random order, <= 7 variables; parity / ite(x,g,!g) / threshold / random functions) compared with exhaustive maximisation by the oracle. marginal_map and bb::<RealSemiring>: query set = empty, all, or a random subset in random order (incl. variables the function ignores); every weight in [0,1] (dyadic, sixteenths), non-query variables normalised, query weights arbitrary with frequent near-ties; expected optimum = max over query assignments a of prod w(a) * U(f|a), U the exact unsmoothed count (S2). meu and bb::<ExpectedUtility>: decision variables carry (1,0),(1,0), chance variables (p,0),(1-p,0), utility-bearing variables (1,u_lo),(1,u_hi) with non-negative dyadic utilities placed below every decision variable in the order; utilities are additionally scaled by 2^-s, s in {0,10,40,70,200} (exact) so that tiny magnitudes occur; expected optimum = max over decision assignments of the utility component of U(f|a). Checks: returned value equals the optimum EXACTLY (S13), the returned partial model assigns every query/decision variable, and the oracle value of that model equals the optimum (ties free). Non-trivial = function neither constant nor literal and a non-empty query; distinct = distinct (function, order, query, weights, query kind). Wide regime: the input's (at most 10) variables are spread over up to 200 rsdd labels, biased to the 64/128 word boundaries, most indices unused; orders, vtrees, partial models and weight tables cover the whole label range, while the oracle keeps working on the dense variables through the harness's own label map. Half of the cases first ask the same kinds of query about another function in the same builder (sharing nodes) and about the negation, under swapped weights, before the checked queries; a quarter use very coarse weights (0, 1/2, 1; utilities 0/1) so that optima and sibling bounds tie exactly (floor: tied optima observed).",
         "assumptions": ASSUME_COMMON + ["S2: the weighted count is the unsmoothed count U; weights are in the domain stated by the property"],
     },
     "C16": {
